@@ -445,6 +445,24 @@ class Gen:
         self.funs["bar"] = (1, lambda a: a * a + 1)
         return self.g_out()
 
+    def g_heavy(self):
+        """allocation-heavy steps: a long list built by a comprehension, consumed by a later step
+        (forced collections and `#int gc' fall between and inside them)"""
+        SI = self.d.SI
+        if not self.vars:
+            return self.g_var()
+        nm = self.fresh("hl")
+        k = self.rng.loguniform(100, 1500)
+        self.add(Form("heavy-list", "%s: List %s := [(i * i) rem %d for i: %s in 1..%d];" % (nm, SI, M, SI, k)))
+        if self.rng.chance(1, 2):
+            self.c_any()
+        vn = self.rng.choice(sorted(self.vars))
+        self.vars[vn] = self.vars[vn] + sum((i * i) % M for i in range(1, k + 1))
+        self.add(Form("heavy-sum", "for x in %s repeat %s := %s + x;" % (nm, vn, vn)))
+        self.mark += 1
+        m = "@@%d:" % self.mark
+        return self.add(Form("out", '%s << "%s" << %s << newline;' % (self.d.out, m, vn), marker=m, value=m + str(self.vars[vn])))
+
     def g_localmacro(self):
         """a function whose body defines a macro; the macro's name is then defined as an ordinary
         session variable (a macro local to a body must not leak into the session)"""
@@ -699,7 +717,7 @@ class Gen:
                                 ("macro", 4), ("ifblock", 5), ("include", 3 if len(self.files) < 3 else 0),
                                 ("out_split", 6), ("fun_split", 4), ("bump", 4), ("exprstep", 6), ("out_bump", 5 if self.bumps else 0),
                                 ("record", 5), ("array", 5), ("closure", 3), ("gener", 4), ("cond", 3),
-                                ("localmacro", 3), ("where", 3), ("macro2", 3), ("library", 2)])
+                                ("localmacro", 3), ("where", 3), ("macro2", 3), ("library", 2), ("heavy", 4)])
                 getattr(self, "g_" + k)()
         # every session ends with an output so the last state is observed
         self.g_out()
